@@ -18,6 +18,7 @@ import (
 	"hash/fnv"
 	"os"
 	"reflect"
+	"regexp"
 	"strings"
 	"sync"
 	"sync/atomic"
@@ -31,7 +32,9 @@ import (
 )
 
 type worker struct {
-	a, b   *h.Env // a: normal handle (session DryRun, ToSQL, real); b: Config.DryRun
+	// envs[strict]: {normal handle, Config.DryRun handle}; strict = AllowGlobalUpdate off
+	envs   [2][2]*h.Env
+	a, b   *h.Env // the pair in use: a normal handle (session DryRun, ToSQL, real); b: Config.DryRun
 	texts  map[uint64]struct{}
 	outcms map[string]struct{}
 }
@@ -47,13 +50,38 @@ func open(cfg *gorm.Config) *h.Env {
 	return e
 }
 
-func newWorker() *worker {
-	return &worker{
-		a:      open(&gorm.Config{AllowGlobalUpdate: true}),
-		b:      open(&gorm.Config{AllowGlobalUpdate: true, DryRun: true}),
-		texts:  map[uint64]struct{}{},
-		outcms: map[string]struct{}{},
+func openPair(strict bool) [2]*h.Env {
+	return [2]*h.Env{
+		open(&gorm.Config{AllowGlobalUpdate: !strict}),
+		open(&gorm.Config{AllowGlobalUpdate: !strict, DryRun: true}),
 	}
+}
+
+func newWorker() *worker {
+	w := &worker{texts: map[uint64]struct{}{}, outcms: map[string]struct{}{}}
+	w.envs[0], w.envs[1] = openPair(false), openPair(true)
+	w.use(false)
+	return w
+}
+
+func (w *worker) use(strict bool) {
+	i := 0
+	if strict {
+		i = 1
+	}
+	w.a, w.b = w.envs[i][0], w.envs[i][1]
+}
+
+// renew replaces the pair in use (after a panic inside gorm left a transaction open).
+func (w *worker) renew(strict bool) {
+	i := 0
+	if strict {
+		i = 1
+	}
+	w.a.Close()
+	w.b.Close()
+	w.envs[i] = openPair(strict)
+	w.use(strict)
 }
 
 type runResult struct {
@@ -97,13 +125,21 @@ func (w *worker) run(p *pg.Prog, mode int) (res runResult) {
 			}
 		}()
 		var tx *gorm.DB
+		agu := p.Case.SessionAGU
 		switch mode {
 		case modeSession:
-			tx, _ = p.Run(env.DB.Session(&gorm.Session{DryRun: true}))
+			tx, _ = p.Run(env.DB.Session(&gorm.Session{DryRun: true, AllowGlobalUpdate: agu}))
 		case modeConfig, modeReal:
-			tx, _ = p.Run(env.DB)
+			d := env.DB
+			if agu {
+				d = d.Session(&gorm.Session{AllowGlobalUpdate: true})
+			}
+			tx, _ = p.Run(d)
 		case modeToSQL:
 			res.toSQL = env.DB.ToSQL(func(d *gorm.DB) *gorm.DB {
+				if agu {
+					d = d.Session(&gorm.Session{AllowGlobalUpdate: true})
+				}
 				tx, _ = p.Run(d)
 				return tx
 			})
@@ -166,6 +202,16 @@ func showList(vs []interface{}) string {
 	return "[" + strings.Join(out, ", ") + "]"
 }
 
+var addrRe = regexp.MustCompile(`0x[0-9a-f]+`)
+
+// errKey renders an error for comparison between runs (pointer values masked).
+func errKey(err error) string {
+	if err == nil {
+		return "<nil>"
+	}
+	return addrRe.ReplaceAllString(err.Error(), "0xADDR")
+}
+
 func sameVars(a, b []interface{}) bool {
 	if len(a) != len(b) {
 		return false
@@ -179,8 +225,8 @@ func sameVars(a, b []interface{}) bool {
 }
 
 type stats struct {
-	programs, compared, bothNothing, unconvertible, dryWriteTx, realErr, dryErr, sampled int64
-	reads, writes, multi, multiRealStmts, classifiedPanics, bothError                    int64
+	programs, compared, bothNothing, unconvertible, dryWriteTx, realErr, dryErr, sampled        int64
+	reads, writes, multi, multiRealStmts, classifiedPanics, bothError, bothMissingWhere, strict int64
 }
 
 func tags(p *pg.Prog) []string {
@@ -189,6 +235,13 @@ func tags(p *pg.Prog) []string {
 		out = append(out, "op:"+o.Label)
 	}
 	out = append(out, "fin:"+p.Fin.Label, "kind:"+p.Fin.Kind)
+	if p.Case.Strict {
+		if p.Case.SessionAGU {
+			out = append(out, "allow-global-update:session")
+		} else {
+			out = append(out, "allow-global-update:off")
+		}
+	}
 	for _, s := range p.Slots {
 		if s.Class != s.Spec.Classes[0] {
 			owner := "fin:" + p.Fin.Label
@@ -203,7 +256,11 @@ func tags(p *pg.Prog) []string {
 
 func check(run *mc.Run, w *worker, p *pg.Prog, st *stats, samples *mc.Samples, outcomes *mc.Set, verbose bool) {
 	p.SQLite = true
+	w.use(p.Case.Strict)
 	atomic.AddInt64(&st.programs, 1)
+	if p.Case.Strict {
+		atomic.AddInt64(&st.strict, 1)
+	}
 	if p.Fin.Write {
 		atomic.AddInt64(&st.writes, 1)
 	} else {
@@ -218,10 +275,7 @@ func check(run *mc.Run, w *worker, p *pg.Prog, st *stats, samples *mc.Samples, o
 	}
 	if rs[modeReal].panicMsg != "" || rs[modeReal].leak != "" || rs[modeSession].leak != "" || rs[modeConfig].leak != "" {
 		// a panic inside gorm leaves a transaction / connection behind: continue on fresh handles
-		w.a.Close()
-		w.b.Close()
-		nw := newWorker()
-		w.a, w.b = nw.a, nw.b
+		w.renew(p.Case.Strict)
 	} else if p.Fin.Write {
 		w.reseed()
 	}
@@ -299,6 +353,8 @@ func check(run *mc.Run, w *worker, p *pg.Prog, st *stats, samples *mc.Samples, o
 			add("dryrun-modes-differ: %s exposes %q, %s exposes %q", modeName[modeSession], ref.text, modeName[m], rs[m].text)
 		} else if !sameVars(rs[m].vars, ref.vars) {
 			add("dryrun-modes-differ: values of %s %s, of %s %s", modeName[modeSession], showList(ref.vars), modeName[m], showList(rs[m].vars))
+		} else if errKey(rs[m].err) != errKey(ref.err) {
+			add("dryrun-modes-differ: error of %s: %v, of %s: %v", modeName[modeSession], ref.err, modeName[m], rs[m].err)
 		}
 	}
 	if ref.text != "" && rs[modeToSQL].toSQL == "" {
@@ -319,10 +375,6 @@ func check(run *mc.Run, w *worker, p *pg.Prog, st *stats, samples *mc.Samples, o
 		if len(real.stmts) > 0 && real.err == nil {
 			add("real-sent-unexposed: the DryRun run exposed nothing (err=%v), the real run succeeded and sent %q", ref.err, real.stmts[0].text)
 		}
-	case len(real.stmts) == 0 && dryErr != nil && real.err != nil:
-		// the operation fails in both modes before anything is sent
-		atomic.AddInt64(&st.bothError, 1)
-		outcome = "both-error"
 	default:
 		want, cerr := convert(ref.vars)
 		if cerr != nil {
@@ -332,6 +384,20 @@ func check(run *mc.Run, w *worker, p *pg.Prog, st *stats, samples *mc.Samples, o
 			if len(real.stmts) > 0 {
 				add("real-differs: DryRun exposes a value database/sql cannot convert (%v) but the real run sent %q", cerr, real.stmts[0].text)
 			}
+			break
+		}
+		if len(real.stmts) == 0 && real.err != nil {
+			// the real run refuses the operation before anything is sent: DryRun
+			// shows "exactly what a real run sends" only if it reports the same error
+			if errKey(dryErr) != errKey(real.err) {
+				add("real-refused-dryrun-not: the real run sent nothing and returned %q; DryRun returned err=%v and exposes %q", real.err, ref.err, ref.text)
+				break
+			}
+			atomic.AddInt64(&st.bothError, 1)
+			if errors.Is(real.err, gorm.ErrMissingWhereClause) {
+				atomic.AddInt64(&st.bothMissingWhere, 1)
+			}
+			outcome = "both-error"
 			break
 		}
 		if len(real.stmts) == 0 {
@@ -418,7 +484,7 @@ func main() {
 	}
 
 	thorough := args.Tier == "thorough"
-	budget := 80 * time.Second
+	budget := 88 * time.Second
 	if thorough {
 		budget = 9 * time.Minute
 	}
@@ -428,33 +494,50 @@ func main() {
 	deadline := time.Now().Add(budget)
 
 	type item struct {
-		shape pg.Shape
-		dev   int
-		r1    []pg.Class
+		shape  pg.Shape
+		dev    int
+		r1     []pg.Class
+		strict int // 0: AllowGlobalUpdate by config; 1: off; 2: off in the config, on by Session
 	}
 	var items []item
-	addItems := func(shapes []pg.Shape, dev int, r1 []pg.Class) {
+	addItems := func(shapes []pg.Shape, dev int, r1 []pg.Class, strict int) {
 		n := len(shapes)
 		stride := 7919
 		for n > 0 && n%stride == 0 {
 			stride++
 		}
 		for i := 0; i < n; i++ {
-			items = append(items, item{shapes[(i*stride)%n], dev, r1})
+			items = append(items, item{shapes[(i*stride)%n], dev, r1, strict})
 		}
 	}
 	both := []int{pg.ModelT, pg.ModelS}
 	all, core := pg.OpsFor(false, false), pg.OpsFor(true, false)
 	var plan string
+	// update / delete finishers, for the handles without AllowGlobalUpdate
+	guarded := func(fins []*pg.Fin) []*pg.Fin {
+		var out []*pg.Fin
+		for _, f := range fins {
+			if f.Kind == "update" || f.Kind == "delete" {
+				out = append(out, f)
+			}
+		}
+		return out
+	}
 	if !thorough {
-		addItems(pg.Shapes(both, pg.Seqs(all, 0, 1), pg.FinsFor(false, true)), 1, pg.PathClasses)
-		addItems(pg.Shapes(both, pg.Seqs(all, 2, 2), pg.FinsFor(true, true)), 0, nil)
+		addItems(pg.Shapes(both, pg.Seqs(all, 0, 1), pg.FinsFor(false, true)), 1, pg.PathClasses, 0)
+		addItems(pg.Shapes(both, pg.Seqs(all, 2, 2), pg.FinsFor(true, true)), 0, nil, 0)
+		addItems(pg.Shapes(both, pg.Seqs(all, 0, 1), guarded(pg.FinsFor(false, true))), 0, nil, 1)
+		addItems(pg.Shapes(both, pg.Seqs(all, 0, 1), guarded(pg.FinsFor(false, true))), 0, nil, 2)
+		addItems(pg.Shapes(both, pg.Seqs(all, 2, 2), guarded(pg.FinsFor(true, true))), 0, nil, 1)
 		plan = fmt.Sprintf("<=1 call over %d calls x %d finishers x 2 models with <=1 slot deviating over %d path classes; 2 calls x %d representative finishers x 2 models with default classes", len(all), len(pg.FinsFor(false, true)), len(pg.PathClasses), len(pg.FinsFor(true, true)))
 	} else {
-		addItems(pg.Shapes(both, pg.Seqs(all, 0, 1), pg.FinsFor(false, true)), 1, nil)
-		addItems(pg.Shapes(both, pg.Seqs(all, 2, 2), pg.FinsFor(false, true)), 0, nil)
-		addItems(pg.Shapes(both, pg.Seqs(all, 2, 2), pg.FinsFor(true, true)), 1, pg.PathClasses)
-		addItems(pg.Shapes([]int{pg.ModelS}, pg.Seqs(core, 3, 3), pg.FinsFor(true, true)), 0, nil)
+		addItems(pg.Shapes(both, pg.Seqs(all, 0, 1), pg.FinsFor(false, true)), 1, nil, 0)
+		addItems(pg.Shapes(both, pg.Seqs(all, 2, 2), pg.FinsFor(false, true)), 0, nil, 0)
+		addItems(pg.Shapes(both, pg.Seqs(all, 2, 2), pg.FinsFor(true, true)), 1, pg.PathClasses, 0)
+		addItems(pg.Shapes([]int{pg.ModelS}, pg.Seqs(core, 3, 3), pg.FinsFor(true, true)), 0, nil, 0)
+		addItems(pg.Shapes(both, pg.Seqs(all, 0, 1), guarded(pg.FinsFor(false, true))), 1, pg.PathClasses, 1)
+		addItems(pg.Shapes(both, pg.Seqs(all, 0, 1), guarded(pg.FinsFor(false, true))), 0, nil, 2)
+		addItems(pg.Shapes(both, pg.Seqs(all, 2, 2), guarded(pg.FinsFor(false, true))), 0, nil, 1)
 		plan = fmt.Sprintf("<=1 call over %d calls x %d finishers x 2 models with <=1 slot deviating over all %d classes; 2 calls x all finishers x 2 models with default classes and x %d representative finishers with <=1 slot deviating over %d path classes; 3 calls over the reduced alphabet of %d calls x representative finishers x model S", len(all), len(pg.FinsFor(false, true)), int(pg.NumClasses), len(pg.FinsFor(true, true)), len(pg.PathClasses), len(core))
 	}
 
@@ -487,7 +570,9 @@ func main() {
 				}
 				it := items[n]
 				it.shape.ClassVectors(it.dev, it.r1, nil, func(classes []int) {
-					check(run, w, it.shape.Prog(classes), st, samples, outcomes, false)
+					p := it.shape.Prog(classes)
+					p.Case.Strict, p.Case.SessionAGU = it.strict > 0, it.strict == 2
+					check(run, w, p, st, samples, outcomes, false)
 				})
 				atomic.AddInt64(&shapesDone, 1)
 			}
@@ -504,6 +589,9 @@ func main() {
 		if st.compared < 2000 {
 			run.HarnessError("vacuous: only %d programs whose real statement was compared with the DryRun statement", st.compared)
 		}
+		if st.bothMissingWhere < 50 {
+			run.HarnessError("vacuous: only %d condition-less updates/deletes refused alike by DryRun and real run", st.bothMissingWhere)
+		}
 		if st.dryWriteTx < 100 {
 			run.HarnessError("vacuous: only %d DryRun writes opened an (empty) implicit transaction", st.dryWriteTx)
 		}
@@ -512,14 +600,14 @@ func main() {
 		}
 	}
 	run.Assume("programs of package proggram: records without nested association values; for finishers with several main statements or none exposed on the returned handle (CreateInBatches, CreateBatchSize, FirstOrCreate, FindInBatches, Transaction / Begin blocks) only the sends-nothing half is checked; a Transaction/Begin block requested by the program itself may BEGIN/COMMIT in every mode")
-	run.Assume("Update/Delete run with AllowGlobalUpdate so that a chain without WHERE is sent instead of being rejected; the rejection itself is C09")
+	run.Assume("handle configurations: AllowGlobalUpdate by Config (all programs), off, and on by Session (update/delete finishers); when the real run refuses an operation and sends nothing, DryRun must return the same error")
 	run.Assume("'values after conversion' = database/sql's driver.DefaultParameterConverter (the recording driver defines no converter of its own); a value it refuses never reaches the driver, which is checked instead of the equality")
 	run.Assume("when nothing is built in DryRun mode only 'the real run does not succeed in sending something' is checked; an error set after the statement was exposed (e.g. FirstOrInit assigning condition values) does not suspend the comparison")
 	run.Assume("an explicit RETURNING call in front of a finisher whose destination cannot receive rows ([]map, batch sub-slice, map update without model) makes gorm's Scan panic in the REAL run on the unchanged tree; that panic (and the transaction it leaves open) is classified by this input-side predicate and not a C19 violation — the DryRun halves and the first-statement comparison are still checked")
 	run.Finish(map[string]interface{}{
 		"evaluations":         st.programs,
 		"distinct_nontrivial": texts.Len(),
-		"rule":                "every program is run as Session{DryRun:true}, Config.DryRun, ToSQL and for real from identical handles/data (counter clock reset, re-seed after writes): " + plan + "; non-trivial = distinct statement texts that reached the driver in the real run and were compared (text and converted values) with the DryRun statement",
+		"rule":                "every program is run as Session{DryRun:true}, Config.DryRun, ToSQL and for real from identical handles/data (counter clock reset, re-seed after writes): " + plan + "; all of these on handles with AllowGlobalUpdate, and every update/delete finisher additionally (<=1 call, and 2 calls with default classes) on handles WITHOUT AllowGlobalUpdate and with AllowGlobalUpdate switched on by Session; non-trivial = distinct statement texts that reached the driver in the real run and were compared (text and converted values) with the DryRun statement",
 		"samples":             samples.List(),
 		"exhaustive":          timedOut == 0 && tooMany == 0,
 		"shapes_total":        len(items),
@@ -534,6 +622,8 @@ func main() {
 		"multi_statement_programs_checked_for_sending_nothing":              st.multi,
 		"multi_statement_programs_whose_real_run_sent_statements":           st.multiRealStmts,
 		"programs_failing_before_sending_in_both_modes":                     st.bothError,
+		"programs_refused_with_missing_where_in_dryrun_and_real":            st.bothMissingWhere,
+		"programs_run_without_allow_global_update":                          st.strict,
 		"read_programs":                     st.reads,
 		"write_programs":                    st.writes,
 		"distinct_outcomes":                 outcomes.Len(),
